@@ -23,6 +23,7 @@ import (
 	"go.uber.org/zap"
 
 	"github.com/metal-toolbox/audito-maldito/internal/common"
+	"github.com/metal-toolbox/audito-maldito/internal/verif/collide"
 	"github.com/metal-toolbox/audito-maldito/internal/verif/dump"
 	"github.com/metal-toolbox/audito-maldito/internal/verif/mc"
 	"github.com/metal-toolbox/audito-maldito/internal/verif/vsync"
@@ -284,6 +285,41 @@ func skipType(t reflect.Type) bool {
 	return false
 }
 
+// The account names and credential ids of the logins are different strings of equal length that share their
+// 32-bit checksum with login 0's (account names: FNV-1a for login 1, FNV-1 for login 2; credential ids: CRC-32 for
+// login 1, FNV-1a for login 2) - whoever keys identity values by such a checksum mixes the logins up.
+var loginNames, credNames = func() (ln, cn []string) {
+	ln, cn = []string{"usr0-AAAAAA"}, []string{"crd0-AAAAAA"}
+	for i, hs := range [][2]int{{0, 2}, {1, 0}} {
+		pre := fmt.Sprintf("usr%d-", i+1)
+		x := collide.Hashes[hs[0]].Fill(ln[0], pre, "")
+		if x == "" {
+			x = "BBBBBB"
+		}
+		ln = append(ln, pre+x)
+		pre = fmt.Sprintf("crd%d-", i+1)
+		if x = collide.Hashes[hs[1]].Fill(cn[0], pre, ""); x == "" {
+			x = "BBBBBB"
+		}
+		cn = append(cn, pre+x)
+	}
+	return ln, cn
+}()
+
+func loginName(i int) string {
+	if i < len(loginNames) {
+		return loginNames[i]
+	}
+	return fmt.Sprintf("user%d", i)
+}
+
+func credName(i int) string {
+	if i < len(credNames) {
+		return credNames[i]
+	}
+	return fmt.Sprintf("cred%d", i)
+}
+
 // mkLogin builds login i (at its arrival, like the sshd processor does).
 func (w *World) mkLogin(idx int) common.RemoteUserLogin {
 	ld := w.Logins[idx]
@@ -294,11 +330,11 @@ func (w *World) mkLogin(idx int) common.RemoteUserLogin {
 	evt := auditevent.NewAuditEvent(common.ActionLoginIdentifier,
 		auditevent.EventSource{Type: "IP", Value: fmt.Sprintf("10.0.0.%d", i+1), Extra: map[string]any{"port": strconv.Itoa(50000 + i)}},
 		auditevent.OutcomeSucceeded,
-		map[string]string{"loggedAs": fmt.Sprintf("user%d", i), "userID": fmt.Sprintf("cred%d", i), "pid": strconv.Itoa(ld.PID)},
+		map[string]string{"loggedAs": loginName(i), "userID": credName(i), "pid": strconv.Itoa(ld.PID)},
 		"sshd").WithTarget(map[string]string{"host": fmt.Sprintf("node%d", i), "machine-id": "m"})
 	evt.Metadata.AuditID = fmt.Sprintf("login-%d", i)
 	evt.LoggedAt = w.now()
-	rul := common.RemoteUserLogin{Source: evt, PID: ld.PID, CredUserID: fmt.Sprintf("cred%d", i)}
+	rul := common.RemoteUserLogin{Source: evt, PID: ld.PID, CredUserID: credName(i)}
 	w.ruls[idx] = rul
 	w.snapEv[idx] = cloneEvent(evt)
 	w.d.Labels[unsafe.Pointer(evt)] = fmt.Sprintf("L%d", idx)
